@@ -12,20 +12,20 @@ EXPLANATION = (
     "regenerated from /repo on every run. The property's full statement is REFUTED on the model and on the code "
     "(two known findings, re-derived each run). Tie: for each corpus flow (typed API, rustc-checked) the IR, the flat "
     "graph emitted by the real emit(), FlatGraphBuilder::build and the real partition_graph verdict are compared with "
-    "the model's emit (exact node order, edge multiset, delay flags, arities, predicted verdict); generated code of "
+    "the model's emit (exact node order, edge multiset, delay flags, arities, predicted verdict), and engine Partition's executable model of the partitioner (partition_verdict) is run on the model-emitted graph and must agree with the real verdict; generated code of "
     "every accepted flow is compiled by rustc into the harness and driven on random tick scripts. Not a proof of: the "
     "Rust type system (no typing judgement), output arities for all flows, rustc accepting generated code (sampled). "
     "Random well-typed program generation is not done: the corpus is fixed (hand-written typed flows).")
 
 
 class C41(vlib.Spec):
-    model_vo = ["theories/HydroB/PC41.vo"]
+    model_vo = ["theories/HydroB/PC41.vo", "theories/HydroB/XPartition.vo"]
     props_vo = "theories/Props/C41.vo"
     theorems = ["C41_guarded_accepted_partial", "C41_tick_cycles_accepted_partial",
                 "C41_emitter_arities_partial", "C41_emitted_in_arities_partial", "C41_refuted_sync_forward_ref", "C41_refuted_unimplemented"]
     crate, group, binary = "h_hydro_b", "hydro", "h_hydro_b"
     imports = ("From Coq Require Import List String NArith.\n"
-               "From HV Require Import HydroB.Model HydroB.GenOps.\nImport ListNotations.\nOpen Scope string_scope.")
+               "From HV Require Import HydroB.Model HydroB.GenOps HydroB.XPartition.\nImport ListNotations.\nOpen Scope string_scope.")
     level = "other"
     trusted_base = ["coqc 8.16.1 kernel (vm_compute for case evaluation and the finite fragment/arity check)",
                     "hand-written Gallina model coq/theories/HydroB/Model.v of hydro_lang emit_core (fragment)",
